@@ -188,3 +188,64 @@ Definition run_ce_kind (k : string) (std a : amap) (q : list (string * bool)) : 
   if String.eqb k "line" then run_ce d_line_s d_line_par std a q else
   if String.eqb k "trafo" then run_ce d_trafo_s d_trafo_par std a q else
   if String.eqb k "trafo3w" then run_ce d_t3_s d_t3_par std a q else OErr "kind".
+
+(* ==================================================================== rename_std_type with the element table (:205-220)
+   library[new] = library.pop(old); net[element].loc[net[element].std_type == old, "std_type"] = new.
+   A table is a list of rows; a write prepends the binding (rowget reads the newest).  The "fuse" library has no element
+   table (tab = None): before the repair net["fuse"] raised KeyError AFTER the library had been changed. *)
+Definition row_type (r : amap) : cell := rowget r "std_type".
+Definition rename_row (old new : string) (r : amap) : amap :=
+  match row_type r with VS s => if String.eqb s old then ("std_type", VS new) :: r else r | _ => r end.
+(* state after the call and the exception raised, if any.  raises = true is the rule before "fix: rename_std_type no longer
+   raises KeyError for libraries without an element table" (KeyError for a kind without table, after the library had been
+   changed); raises = false is the rule as it is in /repo now (:220-222: the table is only touched when it exists) *)
+Definition rename_net_gen (raises : bool) (l : lib) (tab : option (list amap)) (old new : string)
+  : lib * option (list amap) * option string :=
+  match rename_std l old new with
+  | Err e => (l, tab, Some e)
+  | Ok l' => match tab with
+             | Some t => (l', Some (map (rename_row old new) t), None)
+             | None => (l', None, if raises then Some "KeyError" else None)
+             end
+  end.
+Definition RENAME_TABLELESS_RAISES := false.      (* the repair is in /repo *)
+Definition rename_net := rename_net_gen RENAME_TABLELESS_RAISES.
+(* the type data an element refers to *)
+Definition resolve (l : lib) (r : amap) : option amap := match row_type r with VS s => lget l s | _ => None end.
+(* G25r: the element kind has a table (line, trafo, trafo3w, line_dc: yes; fuse: no) *)
+Definition G25r (tab : option (list amap)) : bool := match tab with Some _ => true | None => false end.
+
+(* ==================================================================== change_std_type versus a fresh element of the new type
+   fresh_val ds ty c = what create_<element>(std_type = ty) (descriptor ds of C24) writes into column c of a table that has the
+   column, without an explicit argument for it.  A column is a type column when its value comes from the type parameter of the
+   same name (std_type[c], `if c in std_type`, std_type.get(c, default), possibly behind an argument that was not passed). *)
+Definition fresh_val (ds : desc) (ty : amap) (c : string) : cell := single_val (spec_of ds c) true ty [].
+Fixpoint src_param (s : src) : option string :=
+  match s with SStd p | SStdOpt p | SStdGet p _ | SStdIfCol p => Some p | SArgOr _ fb => src_param fb | _ => None end.
+Definition type_col (ds : desc) (c : string) : bool :=
+  match spec_of ds c with Man s => match src_param s with Some p => String.eqb p c | None => false end | Opt _ _ _ _ => false end.
+(* the columns change_std_type writes *)
+Definition written_cols (cols : list string) (ty : amap) : list string := "std_type" :: filter (has ty) cols.
+(* the stale columns: type columns of the table that the new type does not define and whose old value is not what a fresh
+   element of the new type would hold *)
+Definition stale_cols (ds : desc) (cols : list string) (ty r : amap) : list string :=
+  filter (fun c => type_col ds c && negb (String.eqb "std_type" c) && negb (has ty c) && negb (cell_eqb (rowget r c) (fresh_val ds ty c))) cols.
+Definition G25_nostale (ds : desc) (cols : list string) (ty r : amap) : bool :=
+  match stale_cols ds cols ty r with [] => true | _ => false end.
+Definition desc_of (el : string) : desc :=
+  if String.eqb el "line" then d_line_s else if String.eqb el "trafo" then d_trafo_s else d_t3_s.
+
+(* [row after the change on the queried columns; written columns; stale columns; type columns among cols] *)
+Definition run_change2 (el : string) (cols : list string) (l : lib) (name : string) (r : amap) (q : list string) : out :=
+  match change_std cols l name r, lget l name with
+  | Ok r', Some ty => OL [olist (fun c => ocell (rowget r' c)) q; olist OS (written_cols cols ty);
+                          olist OS (stale_cols (desc_of el) cols ty r); olist OS (filter (type_col (desc_of el)) cols);
+                          olist (fun c => ocell (fresh_val (desc_of el) ty c)) (filter (type_col (desc_of el)) cols)]
+  | Err e, _ => OErr e
+  | _, None => OErr "UserWarning"
+  end.
+(* library, std_type column of the table and raised exception after rename_std_type *)
+Definition run_rename (l : lib) (tab : option (list amap)) (old new : string) (queries : list string) : out :=
+  let '(l', t', e) := rename_net l tab old new in
+  OL [olib l'; oopt (olist (fun r => ocell (row_type r))) t'; oopt OS e;
+      olist (fun q => match load_std l' q with Ok d => oamap d | Err e => OErr e end) queries].
